@@ -75,12 +75,16 @@ func ruleCatalogNotATarget(c *Ctx, rule string) {
 			if !ok {
 				return true
 			}
-			for _, k := range consts {
-				if !g.HoldsAt(loc, Rel{pid.Name, token.NEQ, k}) {
-					if bad == "" {
-						bad = "the table name reaches " + exprKey(call.Fun) + " without having been compared with " + k
-						badPos = call.Pos()
+			for _, names := range consts {
+				held := false
+				for _, k := range names {
+					if g.HoldsAt(loc, Rel{pid.Name, token.NEQ, k}) {
+						held = true
 					}
+				}
+				if !held && bad == "" {
+					bad = "the table name reaches " + exprKey(call.Fun) + " without having been compared with " + strings.Join(names, " / ")
+					badPos = call.Pos()
 				}
 			}
 			return true
@@ -100,12 +104,12 @@ func ruleCatalogNotATarget(c *Ctx, rule string) {
 }
 
 // catalogNameConsts: the package-level string constants of storage whose values are the catalog table names.
-func catalogNameConsts(w *World) []string {
-	var out []string
+func catalogNameConsts(w *World) [][]string {
 	pkg := w.Pkgs["storage"]
 	if pkg == nil {
 		return nil
 	}
+	by := map[string][]string{}
 	sc := pkg.Types.Scope()
 	for _, n := range sc.Names() {
 		cst, ok := sc.Lookup(n).(*types.Const)
@@ -113,7 +117,13 @@ func catalogNameConsts(w *World) []string {
 			continue
 		}
 		if v := cst.Val().ExactString(); v == `"sys_pages"` || v == `"sys_schema"` {
-			out = append(out, n)
+			by[v] = append(by[v], n) // several constants may name one table (an exported alias)
+		}
+	}
+	var out [][]string
+	for _, v := range []string{`"sys_pages"`, `"sys_schema"`} {
+		if len(by[v]) > 0 {
+			out = append(out, by[v])
 		}
 	}
 	return out
@@ -940,6 +950,7 @@ func ruleFetchFreshFields(c *Ctx, rule string) {
 		return ok && namedTypeIs(f.TypeOf(lit), "storage", "Field")
 	}
 	bad := ""
+	unknown := ""
 	var badPos token.Pos
 	stores := 0
 	note := func(pos token.Pos, what string) {
@@ -961,7 +972,7 @@ func ruleFetchFreshFields(c *Ctx, rule string) {
 						continue
 					}
 					if rhs == nil {
-						note(y.Pos(), "the field list is a result of "+exprKey(y.Rhs[0]))
+						unknown = "the field list is a result of " + exprKey(y.Rhs[0])
 						continue
 					}
 					if call, ok := ast.Unparen(rhs).(*ast.CallExpr); ok {
@@ -984,6 +995,34 @@ func ruleFetchFreshFields(c *Ctx, rule string) {
 						}
 					}
 					if isNilIdent(f, rhs) {
+						continue
+					}
+					if call, ok := ast.Unparen(rhs).(*ast.CallExpr); ok {
+						// built by a helper: fresh if a function literal handed to it returns &Field{…} only; otherwise not read
+						lits, freshLits := 0, 0
+						for _, a := range call.Args {
+							if fl, ok := ast.Unparen(a).(*ast.FuncLit); ok {
+								lits++
+								allFresh, rets := true, 0
+								ast.Inspect(fl.Body, func(z ast.Node) bool {
+									if ret, ok := z.(*ast.ReturnStmt); ok && len(ret.Results) == 1 {
+										rets++
+										if !fresh(ret.Results[0]) {
+											allFresh = false
+										}
+									}
+									return true
+								})
+								if allFresh && rets > 0 {
+									freshLits++
+								}
+							}
+						}
+						if lits > 0 && lits == freshLits {
+							stores++
+							continue
+						}
+						unknown = "the field list is the result of " + exprKey(call.Fun)
 						continue
 					}
 					note(y.Pos(), "the field list receives "+exprKey(rhs))
@@ -1009,6 +1048,8 @@ func ruleFetchFreshFields(c *Ctx, rule string) {
 	switch {
 	case bad != "":
 		c.FailConfined(rule, key, badPos, "%s: the Field objects a Fetch hands out are not created for that call — the executor's stores into them (table id) reach every statement that shares them", bad)
+	case unknown != "":
+		c.Undecided(rule, key, "%s: whether the Field objects are created for this call is not decided", unknown)
 	case stores == 0:
 		c.Fail(rule, key, f.Decl.Pos(), "no store of a fresh &Field{…} into the returned field list found")
 	default:
@@ -1182,4 +1223,640 @@ func assignsFromCall(f *Func, callee string) []*ast.AssignStmt {
 		return true
 	})
 	return out
+}
+
+// ---- the stored bytes of a row are replaced, never written into (C08-r10m1, C08-r10m3) ------------------
+
+func ruleStoredBytesImmutable(c *Ctx, rule string) {
+	c.Rule(rule, "the stored bytes of a row are replaced as a whole, never written into: in the storage package no code re-slices a cell's valueBytes to length 0 to encode into them (bytes.NewBuffer(x.valueBytes[:0]), append(x.valueBytes[:0], …)), copies into them (copy(x.valueBytes, …)) or stores single bytes — a statement that is refused half way through its encoding (wrong type in a later column, row too large) has then already overwritten the row it was supposed to leave alone, and a shorter new value leaves the tail of the old one behind the recorded size")
+	w := c.W
+	reads := 0
+	isVB := func(f *Func, e ast.Expr) bool {
+		for {
+			switch y := ast.Unparen(e).(type) {
+			case *ast.SliceExpr:
+				e = y.X
+				continue
+			case *ast.SelectorExpr:
+				if v := fieldVar(f, y); v != nil && v.Name() == "valueBytes" {
+					return true
+				}
+			}
+			return false
+		}
+	}
+	for _, name := range w.SortedFuncNames() {
+		f := w.Funcs[name]
+		if f.Pkg != w.Pkgs["storage"] {
+			continue
+		}
+		k := 0
+		report := func(pos token.Pos, what string) {
+			k++
+			c.FailConfined(rule, f.Name+"|writes-into-stored-bytes#"+itoa(k), pos, "%s %s: the bytes of the stored row are written in place — a refusal later in the same operation leaves the row half overwritten, a shorter value leaves stale bytes behind its size", f.Name, what)
+		}
+		ast.Inspect(f.Decl.Body, func(x ast.Node) bool {
+			switch y := x.(type) {
+			case *ast.SelectorExpr:
+				if v := fieldVar(f, y); v != nil && v.Name() == "valueBytes" {
+					reads++
+				}
+			case *ast.SliceExpr:
+				if isVB(f, y.X) && y.High != nil {
+					if cv := f.constOf(y.High); cv != nil && cv.String() == "0" {
+						report(y.Pos(), "re-slices "+exprKey(y.X)+" to length 0 (to append or encode into it)")
+					}
+				}
+			case *ast.CallExpr:
+				if id, ok := y.Fun.(*ast.Ident); ok && id.Name == "copy" && len(y.Args) == 2 && isVB(f, y.Args[0]) {
+					report(y.Pos(), "copies into "+exprKey(y.Args[0]))
+				}
+			case *ast.AssignStmt:
+				for _, l := range y.Lhs {
+					if ix, ok := ast.Unparen(l).(*ast.IndexExpr); ok && isVB(f, ix.X) {
+						report(y.Pos(), "stores a byte into "+exprKey(ix.X))
+					}
+				}
+			}
+			return true
+		})
+	}
+	if reads < 5 {
+		c.Undecided(rule, "subjects|valueBytes", "only %d uses of the cell field valueBytes found in storage", reads)
+	} else {
+		c.OK(rule, "storage|stored-bytes-replaced-only", token.NoPos, reads, "%d uses of valueBytes examined: none writes into the stored bytes", reads)
+	}
+}
+
+// ---- a record read from the log owns its payload (C08-r10m2) --------------------------------------------
+
+func ruleReadRecordOwnsPayload(c *Ctx, rule string) {
+	c.Rule(rule, "a record read back from the log owns its payload: either WALEntry.decode copies the value into a slice it makes itself, or the log reader makes a new body buffer in every iteration of its record loop — if the decoder keeps a slice of the buffer it was handed AND the reader reuses one buffer for all records, every record of the batch ends up with the bytes of the last one read, and redo rewrites earlier rows with a later row's content")
+	dec := c.NeedFunc(rule, "storage.(*WALEntry).decode")
+	rd := c.NeedFunc(rule, "storage.(*wal).read")
+	if dec == nil || rd == nil {
+		return
+	}
+	key := dec.Name + "<->" + rd.Name + "|payload-owned"
+	isMake := func(f *Func, e ast.Expr) bool {
+		id, ok := ast.Unparen(e).(*ast.Ident)
+		if !ok {
+			return false
+		}
+		rhs, _, ok := f.definedBy(f.Decl.Body, f.ObjOf(id))
+		if !ok {
+			return false
+		}
+		call, ok := ast.Unparen(rhs).(*ast.CallExpr)
+		if !ok {
+			return false
+		}
+		fid, ok := call.Fun.(*ast.Ident)
+		return ok && fid.Name == "make"
+	}
+	copies, stores := false, 0
+	inspectBody(dec.Decl.Body, func(x ast.Node) bool {
+		as, ok := x.(*ast.AssignStmt)
+		if !ok || len(as.Lhs) != 1 || len(as.Rhs) != 1 {
+			return true
+		}
+		if sel, ok := ast.Unparen(as.Lhs[0]).(*ast.SelectorExpr); ok && sel.Sel.Name == "val" {
+			stores++
+			if isMake(dec, as.Rhs[0]) {
+				copies = true
+			}
+			if call, ok := ast.Unparen(as.Rhs[0]).(*ast.CallExpr); ok {
+				if fid, ok := call.Fun.(*ast.Ident); ok && (fid.Name == "append" || fid.Name == "make") {
+					copies = true
+				}
+				if fn := dec.Callee(call); fn != nil && (fn.Name() == "Clone" || fn.Name() == "ReadAll") {
+					copies = true
+				}
+			}
+		}
+		return true
+	})
+	freshPerRecord := false
+	for _, call := range rd.Calls(rd.Decl.Body, false, "storage.WALEntry.decode") {
+		if len(call.Args) != 1 {
+			continue
+		}
+		nb, ok := ast.Unparen(call.Args[0]).(*ast.CallExpr)
+		if !ok || len(nb.Args) != 1 {
+			continue
+		}
+		id, ok := ast.Unparen(nb.Args[0]).(*ast.Ident)
+		if !ok || !isMake(rd, id) {
+			continue
+		}
+		// the make sits inside the loop that contains the decode call
+		loop := enclosingLoop(rd.Decl.Body, call)
+		for _, as := range rd.assignsTo(rd.Decl.Body, rd.ObjOf(id)) {
+			if loop != nil && loop.Pos() <= as.Pos() && as.End() <= loop.End() && len(rd.assignsTo(rd.Decl.Body, rd.ObjOf(id))) == 1 {
+				freshPerRecord = true
+			}
+		}
+	}
+	switch {
+	case stores == 0:
+		c.Fail(rule, key, dec.Decl.Pos(), "WALEntry.decode does not store the record's value")
+	case copies:
+		c.OK(rule, key, dec.Decl.Pos(), 2, "decode copies the value into a slice of its own (reader buffer fresh per record: %v)", freshPerRecord)
+	case freshPerRecord:
+		c.OK(rule, key, rd.Decl.Pos(), 2, "decode keeps a slice of the buffer it is handed, and the reader makes that buffer anew for every record")
+	default:
+		c.FailConfined(rule, key, dec.Decl.Pos(), "WALEntry.decode keeps a slice of the buffer it is handed and wal.read does not make a new body buffer for every record: all records of a batch share one payload buffer, and redo applies the last record's bytes to every row")
+	}
+}
+
+// ---- a store is not touched unlocked once its flusher runs (D25) -----------------------------------------
+
+func ruleStoreInitUnderLock(c *Ctx, rule string) {
+	c.Rule(rule, "a store is not touched without its lock once its flusher runs: in every function that creates a store with the background flusher (newFileStore(path, true)), every later call of a method on that store that reads or writes its shared state (open, save, fetch, update, append, setPageTableRoot, flush …) and every direct store to one of its fields sits inside a lock bracket, or the method takes the lock itself — the flusher's first tick reads the header fields and the page cache; filling them unlocked after the goroutine was started is a data race whenever the caller is still at it when the tick comes (or, for the race detector, whenever nothing orders the two). A store created without the flusher (recovery, CREATE DATABASE) needs no lock")
+	w := c.W
+	m := w.Locks()
+	n := 0
+	for _, name := range w.SortedFuncNames() {
+		f := w.Funcs[name]
+		if f.Pkg != w.Pkgs["storage"] {
+			continue
+		}
+		g := f.Graph()
+		for _, as := range assignsFromCall(f, "newFileStore") {
+			call := ast.Unparen(as.Rhs[0]).(*ast.CallExpr)
+			if len(call.Args) != 2 {
+				continue
+			}
+			cv := f.constOf(call.Args[1])
+			if cv != nil && cv.String() == "false" {
+				continue
+			}
+			sid, ok := as.Lhs[0].(*ast.Ident)
+			if !ok {
+				continue
+			}
+			sobj := f.ObjOf(sid)
+			n++
+			key := f.Name + "|flusher-store|" + sid.Name
+			br := m.BracketsOf(g)
+			startLoc, _ := g.Locate(as)
+			bad := ""
+			var badPos token.Pos
+			uses := 0
+			inspectBody(f.Decl.Body, func(x ast.Node) bool {
+				if x.Pos() <= as.End() {
+					return true
+				}
+				var at ast.Node
+				what := ""
+				switch y := x.(type) {
+				case *ast.CallExpr:
+					sel, ok := y.Fun.(*ast.SelectorExpr)
+					if !ok {
+						return true
+					}
+					id, ok := ast.Unparen(sel.X).(*ast.Ident)
+					if !ok || f.ObjOf(id) != sobj {
+						return true
+					}
+					if _, _, isLock := m.lockCall(f, y); isLock {
+						return true
+					}
+					callee := w.FuncOf(f.Callee(y))
+					if callee == nil {
+						return true
+					}
+					if k, _, self := m.wrapperKind(callee); self && k != lockNone {
+						return true
+					}
+					if selfLocking(m, callee) {
+						return true
+					}
+					at, what = y, "calls "+sid.Name+"."+sel.Sel.Name+"()"
+				case *ast.AssignStmt:
+					for _, l := range y.Lhs {
+						if sel, ok := ast.Unparen(l).(*ast.SelectorExpr); ok {
+							if id, ok := ast.Unparen(sel.X).(*ast.Ident); ok && f.ObjOf(id) == sobj {
+								at, what = y, "stores into "+sid.Name+"."+sel.Sel.Name
+							}
+						}
+					}
+				}
+				if at == nil {
+					return true
+				}
+				uses++
+				loc, ok := g.Locate(at)
+				if !ok {
+					return true
+				}
+				if !g.Dominates(startLoc, loc) {
+					return true
+				}
+				if in, _ := br.Inside(loc, lockNone); !in && bad == "" {
+					bad, badPos = what, at.Pos()
+				}
+				return true
+			})
+			if bad != "" {
+				c.Fail(rule, key, badPos, "%s starts the flusher with newFileStore(…, true) and then %s outside any lock bracket: the flusher's tick reads the same state unsynchronised", f.Name, bad)
+			} else {
+				c.OK(rule, key, as.Pos(), 1+uses, "%d later uses of the store are inside a lock bracket or self-locking", uses)
+			}
+		}
+	}
+	if n == 0 {
+		c.Undecided(rule, "subjects|flusher-stores", "no function creates a store with the background flusher")
+	}
+}
+
+// selfLocking: every path through the method starts by taking the store lock (flushPages and the like).
+func selfLocking(m *LockModel, callee *Func) bool {
+	if callee == nil || callee.Decl == nil || callee.Decl.Body == nil {
+		return false
+	}
+	for _, st := range callee.Decl.Body.List {
+		switch y := st.(type) {
+		case *ast.ExprStmt:
+			if call, ok := y.X.(*ast.CallExpr); ok {
+				if _, rel, isLock := m.lockCall(callee, call); isLock && !rel {
+					return true
+				}
+			}
+			return false
+		case *ast.DeferStmt:
+			continue
+		default:
+			return false
+		}
+	}
+	return false
+}
+
+// ================================ rules from round 11 (small slips) ========================================
+
+// ruleLengthIsByteLength: what a length prefix counts is bytes.
+func ruleLengthIsByteLength(c *Ctx, rule string) {
+	c.Rule(rule, "a length that is written in front of bytes counts bytes: in the storage codecs no operand of a binary.Write / PutUintN / size field is a count of runes (len([]rune(s)), utf8.RuneCountInString(s), utf8.RuneCount(b)) — for a non-ASCII string the prefix is then smaller than the payload, the reader stops early and every column behind it reads back as garbage or NULL")
+	w := c.W
+	n := 0
+	for _, name := range w.SortedFuncNames() {
+		f := w.Funcs[name]
+		if f.Pkg != w.Pkgs["storage"] {
+			continue
+		}
+		k := 0
+		ast.Inspect(f.Decl.Body, func(x ast.Node) bool {
+			call, ok := x.(*ast.CallExpr)
+			if !ok {
+				return true
+			}
+			what := ""
+			if fn := f.Callee(call); fn != nil && fn.Pkg() != nil && fn.Pkg().Path() == "unicode/utf8" && strings.HasPrefix(fn.Name(), "RuneCount") {
+				what = "utf8." + fn.Name()
+			}
+			if id, ok := call.Fun.(*ast.Ident); ok && id.Name == "len" && len(call.Args) == 1 {
+				n++
+				if conv, ok := ast.Unparen(call.Args[0]).(*ast.CallExpr); ok && len(conv.Args) == 1 {
+					if tv, ok := f.Pkg.TypesInfo.Types[conv.Fun]; ok && tv.IsType() {
+						if sl, ok := tv.Type.Underlying().(*types.Slice); ok {
+							if b, ok := sl.Elem().Underlying().(*types.Basic); ok && b.Kind() == types.Int32 {
+								what = "len([]rune(…))"
+							}
+						}
+					}
+				}
+			}
+			if what != "" {
+				k++
+				c.FailConfined(rule, f.Name+"|rune-count#"+itoa(k), call.Pos(), "%s computes a length in runes (%s) in the storage layer, where every length is a byte length on the wire: a multi-byte character makes the prefix smaller than the payload", f.Name, what)
+			}
+			return true
+		})
+	}
+	if n < 5 {
+		c.Undecided(rule, "subjects|len-calls", "only %d len() calls found in storage", n)
+	} else {
+		c.OK(rule, "storage|lengths-are-byte-lengths", token.NoPos, n, "%d len() calls examined, none counts runes", n)
+	}
+}
+
+// ruleBatchNotOverwritten: the batch a logged mutator returns is only ever appended to once it holds a record.
+func ruleBatchNotOverwritten(c *Ctx, rule string) {
+	c.Rule(rule, "a record that was put into a log batch stays in it: in every storage function that returns a WALBatch, once the returned batch has received a record (B = append(B, …)) it is never assigned anything but an append to itself — `B, err = callee()` after the row's own record was appended replaces that record by the callee's (the root-move record overwrites the insert record of the row that caused it, and recovery finds a catalog entry pointing at a page whose row was never logged)")
+	w := c.W
+	n := 0
+	for _, name := range w.SortedFuncNames() {
+		f := w.Funcs[name]
+		if f.Pkg != w.Pkgs["storage"] || !returnsWALBatch(f.Obj) {
+			continue
+		}
+		g := f.Graph()
+		// the returned batch variables
+		batches := map[types.Object]bool{}
+		inspectBody(f.Decl.Body, func(x ast.Node) bool {
+			if ret, ok := x.(*ast.ReturnStmt); ok && len(ret.Results) >= 1 {
+				if id, ok := ast.Unparen(ret.Results[0]).(*ast.Ident); ok && !isNilIdent(f, id) {
+					batches[f.ObjOf(id)] = true
+				}
+			}
+			return true
+		})
+		for b := range batches {
+			var appends, plain []*ast.AssignStmt
+			for _, as := range f.assignsTo(f.Decl.Body, b) {
+				isAppend := false
+				if len(as.Rhs) == 1 {
+					if call, ok := ast.Unparen(as.Rhs[0]).(*ast.CallExpr); ok {
+						if id, ok := call.Fun.(*ast.Ident); ok && id.Name == "append" && len(call.Args) >= 1 {
+							if a0, ok := ast.Unparen(call.Args[0]).(*ast.Ident); ok && f.ObjOf(a0) == b {
+								isAppend = true
+							}
+						}
+					}
+				}
+				if isAppend {
+					appends = append(appends, as)
+				} else if as.Tok == token.ASSIGN {
+					plain = append(plain, as)
+				}
+			}
+			if len(appends) == 0 {
+				continue
+			}
+			n++
+			key := f.Name + "|batch-kept|" + b.Name()
+			bad := false
+			var badPos token.Pos
+			for _, p := range plain {
+				pl, ok := g.Locate(p)
+				if !ok {
+					continue
+				}
+				for _, a := range appends {
+					al, ok := g.Locate(a)
+					if !ok {
+						continue
+					}
+					start := al
+					reach, _ := g.Forward(&start, nil, func(_ ast.Node, at Loc) Verdict {
+						if at == pl {
+							return Hit
+						}
+						return Go
+					}, nil)
+					if reach {
+						bad, badPos = true, p.Pos()
+					}
+				}
+			}
+			if bad {
+				c.Fail(rule, key, badPos, "%s assigns a new value to its batch %s after records were appended to it: the records collected so far are dropped from the log", f.Name, b.Name())
+			} else {
+				c.OK(rule, key, appends[0].Pos(), len(appends)+len(plain), "after its first append the batch is only appended to")
+			}
+		}
+	}
+	if n == 0 {
+		c.Undecided(rule, "subjects|batches", "no storage function appends to a WALBatch it returns")
+	}
+}
+
+// rulePrecheckChecksEveryRow: the loop that encodes and size-checks the catalog rows walks the rows it built.
+func rulePrecheckChecksEveryRow(c *Ctx, rule string) {
+	c.Rule(rule, "the CREATE TABLE pre-check looks at every row it builds: in checkCatalogRows the loop that encodes and size-checks the rows ranges over the very slice the rows were appended to (or counts to its length) — a loop bounded by the number of columns stops one short (there is one row for the page table in front), the last column's row is never checked, and a CREATE TABLE that is refused for it has already registered the table")
+	f := c.W.F("storage.checkCatalogRows")
+	if f == nil {
+		c.OK(rule, "storage.checkCatalogRows|absent", token.NoPos, 1, "no function checkCatalogRows (C14.16 judges the pre-check wherever it is written out)")
+		return
+	}
+	key := f.Name + "|walks-its-rows"
+	// the slice that receives the constructed rows
+	var rowsObj types.Object
+	inspectBody(f.Decl.Body, func(x ast.Node) bool {
+		if as, ok := x.(*ast.AssignStmt); ok && len(as.Lhs) == 1 && len(as.Rhs) == 1 {
+			if call, ok := ast.Unparen(as.Rhs[0]).(*ast.CallExpr); ok {
+				if id, ok := call.Fun.(*ast.Ident); ok && id.Name == "append" {
+					if l, ok := as.Lhs[0].(*ast.Ident); ok {
+						rowsObj = f.ObjOf(l)
+					}
+				}
+			}
+		}
+		return true
+	})
+	encs := f.Calls(f.Decl.Body, false, "storage.Tuple.Encode")
+	if rowsObj == nil || len(encs) == 0 {
+		c.Undecided(rule, key, "the rows slice or the Encode call was not found in checkCatalogRows")
+		return
+	}
+	okAll := true
+	why := ""
+	for _, e := range encs {
+		loop := enclosingLoop(f.Decl.Body, e)
+		switch l := loop.(type) {
+		case *ast.RangeStmt:
+			if id, ok := ast.Unparen(l.X).(*ast.Ident); !ok || f.ObjOf(id) != rowsObj {
+				okAll, why = false, "the encode loop ranges over "+exprKey(l.X)+", not over the rows it built"
+			}
+		case *ast.ForStmt:
+			if l.Cond == nil || !strings.Contains(exprKey(l.Cond), "len("+rowsObj.Name()+")") {
+				okAll, why = false, "the encode loop is bounded by `"+exprKey(l.Cond)+"`, not by the number of rows it built"
+			}
+		default:
+			okAll, why = false, "Encode is not called in a loop over the rows"
+		}
+	}
+	if okAll {
+		c.OK(rule, key, encs[0].Pos(), 2, "every row that was built is encoded and size-checked")
+	} else {
+		c.Fail(rule, key, encs[0].Pos(), "%s: a row the insert path will store is never validated, and its refusal comes after the table has been registered", why)
+	}
+}
+
+// ruleValidLenAfterBody: the length the log is cut back to counts complete records only.
+func ruleValidLenAfterBody(c *Ctx, rule string) {
+	c.Rule(rule, "the length the log is cut back to counts complete records only: in the log reader the variable handed to Truncate is advanced only at a point that every io.ReadFull of the current record (length and body) dominates — advanced right after the length prefix, a record whose body is torn is counted as present, Truncate then EXTENDS the file with zeros up to that length, and the next start reads a record of zeros (a page of kind 0) and panics")
+	f := c.NeedFunc(rule, "storage.(*wal).read")
+	if f == nil {
+		return
+	}
+	g := f.Graph()
+	key := f.Name + "|valid-length"
+	var lenObj types.Object
+	inspectBody(f.Decl.Body, func(x ast.Node) bool {
+		if call, ok := x.(*ast.CallExpr); ok && len(call.Args) == 1 {
+			if sel, ok := call.Fun.(*ast.SelectorExpr); ok && sel.Sel.Name == "Truncate" {
+				if id, ok := ast.Unparen(call.Args[0]).(*ast.Ident); ok {
+					lenObj = f.ObjOf(id)
+				}
+			}
+		}
+		return true
+	})
+	if lenObj == nil {
+		c.Undecided(rule, key, "no Truncate(<variable>) in the log reader")
+		return
+	}
+	reads := f.Calls(f.Decl.Body, false, "io.ReadFull")
+	bad := ""
+	var badPos token.Pos
+	incs := 0
+	inspectBody(f.Decl.Body, func(x ast.Node) bool {
+		as, ok := x.(*ast.AssignStmt)
+		if !ok || len(as.Lhs) != 1 || as.Tok == token.DEFINE {
+			return true
+		}
+		id, ok := as.Lhs[0].(*ast.Ident)
+		if !ok || f.ObjOf(id) != lenObj || (as.Tok == token.ASSIGN && f.constOf(as.Rhs[0]) != nil) {
+			return true
+		}
+		if enclosingLoop(f.Decl.Body, as) == nil {
+			return true
+		}
+		incs++
+		al, ok := g.Locate(as)
+		if !ok {
+			return true
+		}
+		for _, r := range reads {
+			if enclosingLoop(f.Decl.Body, r) == nil {
+				continue
+			}
+			if rl, ok := g.Locate(r); ok && !g.Dominates(rl, al) {
+				bad, badPos = "the valid length is advanced at a point the read at "+c.W.Pos(r.Pos())+" does not dominate", as.Pos()
+			}
+		}
+		return true
+	})
+	switch {
+	case incs == 0:
+		c.Undecided(rule, key, "the variable handed to Truncate is never advanced inside the record loop")
+	case bad != "":
+		c.Fail(rule, key, badPos, "%s: a record whose body is torn counts as complete, and the truncation to that length pads the log with zeros", bad)
+	default:
+		c.OK(rule, key, f.Decl.Pos(), incs+len(reads), "the valid length is advanced only after the length and the body of the record were read in full")
+	}
+}
+
+// ruleHitDoesNotEvict: storing under a key that is cached replaces the page; nothing is evicted for it.
+func ruleHitDoesNotEvict(c *Ctx, rule string) {
+	c.Rule(rule, "a store under a cached key evicts nothing: in LRUCache.set the eviction (list.Remove of a searched victim) is dominated by the test of the map lookup's `found` result, whose found branch leaves the function — with the make-room block in front of that test, re-storing a cached key in a full cache evicts a clean page for nothing, and if the key's own entry is the victim the entry found earlier is stale: the page vanishes while set reports success")
+	f := c.NeedFunc(rule, "storage.(*LRUCache).set")
+	if f == nil {
+		return
+	}
+	g := f.Graph()
+	key := f.Name + "|hit-first"
+	_, foundObj := lruHitVars(f)
+	if foundObj == nil {
+		c.Undecided(rule, key, "the map lookup with its found result was not recognised in set")
+		return
+	}
+	var foundIf *ast.IfStmt
+	inspectBody(f.Decl.Body, func(x ast.Node) bool {
+		if ifs, ok := x.(*ast.IfStmt); ok && foundIf == nil {
+			cond := ast.Unparen(ifs.Cond)
+			if u, ok := cond.(*ast.UnaryExpr); ok && u.Op == token.NOT {
+				cond = ast.Unparen(u.X)
+			}
+			if id, ok := cond.(*ast.Ident); ok && f.ObjOf(id) == foundObj {
+				foundIf = ifs
+			}
+		}
+		return true
+	})
+	removes := f.Calls(f.Decl.Body, false, "list.List.Remove")
+	if foundIf == nil || len(removes) == 0 {
+		c.Undecided(rule, key, "the found test or the eviction was not recognised in set")
+		return
+	}
+	fl, _ := g.Locate(foundIf.Cond)
+	for _, r := range removes {
+		rl, ok := g.Locate(r)
+		if !ok {
+			continue
+		}
+		if !g.Dominates(fl, rl) {
+			c.Fail(rule, key, r.Pos(), "list.Remove is reachable before the lookup's found result has been tested: a store under a cached key evicts a page, possibly its own entry")
+			return
+		}
+	}
+	c.OK(rule, key, foundIf.Pos(), 1+len(removes), "the found test dominates every eviction")
+}
+
+// ruleEveryStatementSubmitted: one failing statement does not swallow the ones typed after it.
+func ruleEveryStatementSubmitted(c *Ctx, rule string) {
+	c.Rule(rule, "every statement of an entered line reaches the engine: the console loop that hands the split statements to ExecQuery has no break and no return in its body — a statement that fails is reported and the next one is still submitted; leaving the loop on the first error silently drops the statements typed after it on the same line")
+	f := c.NeedFunc(rule, "console.runTerminal")
+	if f == nil {
+		return
+	}
+	key := f.Name + "|submits-all"
+	n := 0
+	for _, call := range f.Calls(f.Decl.Body, false, "engine.Session.ExecQuery") {
+		loop, ok := enclosingLoop(f.Decl.Body, call).(*ast.RangeStmt)
+		if !ok {
+			continue
+		}
+		n++
+		bad := ""
+		var stack []ast.Node
+		ast.Inspect(loop.Body, func(x ast.Node) bool {
+			if x == nil {
+				stack = stack[:len(stack)-1]
+				return true
+			}
+			stack = append(stack, x)
+			switch y := x.(type) {
+			case *ast.FuncLit:
+				return false
+			case *ast.ReturnStmt:
+				bad = "a return"
+			case *ast.BranchStmt:
+				if y.Tok == token.BREAK || y.Tok == token.GOTO {
+					inner := false
+					for _, a := range stack[:len(stack)-1] {
+						switch a.(type) {
+						case *ast.ForStmt, *ast.RangeStmt, *ast.SwitchStmt, *ast.SelectStmt, *ast.TypeSwitchStmt:
+							inner = true
+						}
+					}
+					if !inner || y.Label != nil {
+						bad = "a " + y.Tok.String()
+					}
+				}
+			}
+			return true
+		})
+		if bad != "" {
+			c.Fail(rule, key, loop.Pos(), "the loop that submits the statements of a line has %s in its body: once it is taken the remaining statements of the line never reach the engine", bad)
+		} else {
+			c.OK(rule, key, loop.Pos(), 2, "the loop submits every statement of the line")
+		}
+	}
+	if n == 0 {
+		c.Undecided(rule, key, "no loop over the split statements that calls ExecQuery found in runTerminal")
+	}
+}
+
+
+// lruHitVars: the two results of the map lookup `entry, found := m[key]`.
+func lruHitVars(f *Func) (entry, found types.Object) {
+	inspectBody(f.Decl.Body, func(x ast.Node) bool {
+		if as, ok := x.(*ast.AssignStmt); ok && len(as.Lhs) == 2 && len(as.Rhs) == 1 {
+			if ix, ok := ast.Unparen(as.Rhs[0]).(*ast.IndexExpr); ok {
+				if _, isMap := f.TypeOf(ix.X).Underlying().(*types.Map); isMap {
+					if a, ok := as.Lhs[0].(*ast.Ident); ok {
+						entry = f.ObjOf(a)
+					}
+					if b, ok := as.Lhs[1].(*ast.Ident); ok {
+						found = f.ObjOf(b)
+					}
+				}
+			}
+		}
+		return true
+	})
+	return
 }
